@@ -26,6 +26,8 @@ def effective(s, thr):
 
 
 class Amuset(probe.Contract):
+    freeze = True  # the oracle sees the arguments as they were at call entry; arrays / lists rewritten by the call are reported
+    input_prop = P
     def __init__(self, name):
         self.api = 'tedmd.' + name
         self.name = name
